@@ -69,26 +69,60 @@ func runScenario(idx int, sc *Scenario, first int) {
 		}
 		emit(fmt.Sprintf(`{"ev":"Intent","scen":%d,"step":%d}`, idx, k))
 		stepStart.Store(time.Now().UnixNano())
-		line := ctx.runStep(k, st)
+		lines := ctx.runStep(k, st)
 		stepStart.Store(0)
-		emit(fmt.Sprintf(`{"scen":%d,"sid":%s,"step":%d,%s}`, idx, strconv.Quote(sc.Sid), k, line))
+		for _, line := range lines {
+			emit(fmt.Sprintf(`{"scen":%d,"sid":%s,"step":%d,%s}`, idx, strconv.Quote(sc.Sid), k, line))
+		}
 	}
 }
 
-func (c *stepCtx) runStep(k int, st map[string]interface{}) string {
+func (c *stepCtx) runStep(k int, st map[string]interface{}) []string {
 	switch str(st, "op", "") {
 	case "size":
-		return c.stepSize(st)
+		return []string{c.stepSize(st)}
 	case "encode":
-		return c.stepEncode(k, st)
+		return []string{c.stepEncode(k, st)}
+	case "encsweep":
+		return c.stepEncSweep(k, st)
 	case "decode":
-		return c.stepDecode(k, st)
+		return []string{c.stepDecode(k, st)}
 	case "gc":
 		runtime.GC()
-		return `"ev":"GC"`
+		return []string{`"ev":"GC"`}
 	}
 	fmt.Fprintln(os.Stderr, "harness: unknown op", st["op"])
-	return `"ev":"Unknown"`
+	return []string{`"ev":"Unknown"`}
+}
+
+// encsweep: one Encode call for every buffer length 0..n0 (n0 = length of the message as
+// learnt from a call with a large buffer), alternating no spare capacity / spare capacity.
+func (c *stepCtx) stepEncSweep(k int, st map[string]interface{}) []string {
+	_, _, iface := c.arg(st)
+	big := make([]byte, 1<<16)
+	n0, err0, pan0 := callEncode(big, iface)
+	if pan0 != nil || err0 != nil || n0 > num(st, "max", 64) {
+		st2 := map[string]interface{}{}
+		for kk, vv := range st {
+			st2[kk] = vv
+		}
+		st2["buf"] = map[string]interface{}{"mode": "rel", "n": float64(-1), "extra": float64(8)}
+		return []string{c.stepEncode(k, st2)}
+	}
+	var out []string
+	for l := 0; l <= n0+1; l++ {
+		st2 := map[string]interface{}{}
+		for kk, vv := range st {
+			st2[kk] = vv
+		}
+		extra := 0
+		if l%2 == 1 {
+			extra = num(st, "extra", 8)
+		}
+		st2["buf"] = map[string]interface{}{"mode": "abs", "n": float64(l), "extra": float64(extra)}
+		out = append(out, c.stepEncode(-1, st2))
+	}
+	return out
 }
 
 // ---- panics and errors as raw facts ------------------------------------------------
